@@ -158,7 +158,7 @@ def main():
     if info is None:
         print("property %s is not claimed (see MANIFEST.not_applicable)" % a.prop)
         sys.exit(3)
-    keys = [k for k, c in cons.items() if a.prop in c.serves and not c.assume_only]
+    keys = [k for k, c in cons.items() if a.prop in c.serves and not c.assume_only and not getattr(c, 'helper', False)]
     if a.only:
         keys = [k for k in keys if a.only in k[1]]
     assumed = [k for k, c in cons.items() if a.prop in c.serves and c.assume_only]
